@@ -8,7 +8,7 @@
 //!   m <F|P> <pats> <path>…           ResourceDef::new / ::prefix; per path is_match/find_match/capture_match_info
 //!   b <F|P> <pats> <val>…            resource_path_from_iter, then capture_match_info on the built path
 //!   bm <F|P> <pats> <name>=<val>…    resource_path_from_map (later duplicates win, as in HashMap::insert)
-//!   k <path> <F|P>:<pat>…            successive capture_match_info calls on one Path
+//!   k <path> <F|P>:<pat>[,<pat>…]…   successive capture_match_info calls on one Path (comma list = Patterns::List)
 //!     <pats> = `S <pat>` (Patterns::Single) | `L<n> <pat>×n` (Patterns::List)
 use std::panic::{catch_unwind, AssertUnwindSafe};
 
@@ -984,20 +984,23 @@ fn run_k(ws: &[&str]) -> CaseResult {
             outs.push("bad-case".to_owned());
             break;
         };
-        let Some(pat) = unhex_str(pat) else {
+        // one pattern, or a comma-separated pattern list (Patterns::List)
+        let Some(pats) = pat.split(',').map(unhex_str).collect::<Option<Vec<String>>>() else {
             outs.push("bad-case".to_owned());
             break;
         };
+        let single = pats.len() == 1;
+        let pat = pats[0].clone();
         let prefix = flag == "P";
-        let Some(rd) = mk_def(prefix, &[pat.clone()], true) else {
+        let Some(rd) = mk_def(prefix, &pats, single) else {
             outs.push("panic".to_owned());
             break;
         };
+        let is_static = single && !pat.contains('{') && !pat.ends_with('*');
         let before = p.unprocessed().to_owned();
         let nseg = p.segment_count();
         match catch_unwind(AssertUnwindSafe(|| rd.capture_match_info(&mut p))) {
             Err(_) => {
-                let is_static = !pat.contains('{') && !pat.ends_with('*');
                 if path.len() < 65536 || !is_static {
                     res = res.fail("capture-panic", format!("capture_match_info panicked at step {}", step));
                 }
@@ -1013,6 +1016,14 @@ fn run_k(ws: &[&str]) -> CaseResult {
             Ok(true) => {
                 let seen = observe(&p);
                 res.nontrivial = true;
+                if path.len() > 65535 && !is_static {
+                    // `Path` offsets are u16 and absolute: whatever an outer prefix has already consumed, a dynamic
+                    // pattern / pattern list must decline a path longer than u16::MAX (fix 448eed6)
+                    res = res.fail(
+                        "long-path-captured",
+                        format!("path of {} bytes, skip {} before step {}: capture_match_info = {}", path.len(), prev_skip, step, &show_seen(&seen).chars().take(80).collect::<String>()),
+                    );
+                }
                 if path.len() < 65536 {
                     // the step behaves on the unprocessed rest exactly like a fresh match on that rest
                     let mut fresh = Path::new(before.as_str());
@@ -1320,6 +1331,38 @@ fn gen_random(ctx: &Ctx, rng: &mut Rng, cases: &mut Vec<String>) {
             path = mutate(rng, &path);
         }
         cases.push(format!("k {} P:{} F:{} P:{}", hs(&path), hs(&a), hs(&b), hs(&b)));
+    }
+    // chains straddling the u16 limit: a static prefix consumes part of a path that is (just) longer than 65535
+    // bytes, so that the unprocessed rest fits in a u16 again; then dynamic patterns / pattern lists whose captures
+    // end before or beyond absolute offset 65535.  Also the same shapes at and just below the limit (must capture).
+    for i in 0..ctx.budget(48) {
+        let pre = match i % 4 {
+            0 => rng.range(2, 40),
+            1 => rng.range(900, 1100),
+            2 => rng.range(2, 30_000),
+            _ => rng.range(2, 300),
+        };
+        let total = match i % 6 {
+            0 => 65_536,
+            1 => 65_535 + rng.range(1, 64),
+            2 => 65_535 + rng.range(1, pre),
+            3 => 65_535,
+            4 => 65_535 - rng.below(3),
+            _ => 65_536 + rng.below(pre),
+        };
+        // path = "/" s^(pre-1) "/x/" t^(rest)
+        let rest = total - pre - 3;
+        let path = format!("2f+*{}:73+2f782f+*{}:74", pre - 1, rest);
+        let outer = format!("P:2f+*{}:73", pre - 1);
+        const INNER: &[&str] = &["/{id}/{tail}*", "/{id}/{t}", "/x/{t:.*}", "/{id}", "/{a:[a-z]}/{b:t+}", "/x/{t}"];
+        let inner = *rng.pick(INNER);
+        let step2 = match rng.below(4) {
+            0 => format!("F:{},{}", hs(inner), hs("/never/{id}/{tail}")),
+            1 => format!("P:{}", hs(inner)),
+            _ => format!("F:{}", hs(inner)),
+        };
+        let step3 = *rng.pick(&["P:2f7b717d", "F:2f7b717d2a", "P:2f+*3:74", "F:2f7b613a2e2a7d"][..]);
+        cases.push(format!("k {} {} {} P:{} {}", path, outer, step2, hs("/{id}"), step3));
     }
     // malformed patterns (constructor panics) and degenerate ones (warnings only)
     const BAD: &[&str] = &[
